@@ -7,6 +7,23 @@ V = Path(__file__).resolve().parent.parent
 
 # finding id -> (property, commit, what failed)
 FIXED = {
+    ("C09", "list-alias-shallow-copy"): ("b5d87be", "`b = a` for a list shared the buffer: a later append / re-assignment through either name freed it under the other (heap-use-after-free)"),
+    ("C09", "list-created-in-loop-leaks"): ("b5d87be", "a list created while loop() runs was never freed (no destructor): the heap grew every pass"),
+    ("C15", "button-declared-in-loop-startup-click"): ("a4c5e9b", "a Button constructed inside the main loop got no initial sample: held down at power-up it fired on_click in pass 1"),
+    ("C15", "is-pressed-in-earlier-handler-stale"): ("2fa4d9d", "is_pressed() of a later-polled button inside the on_click handler of an earlier one returned the previous pass's sample"),
+    ("C20", "pot-fraction-outside-range"): ("6c8056d", "Potentiometer.read() accepted provider values in (-1, 0) and (1023, 1024) by truncating before the range check"),
+    ("C17", "lcd-message-bottom-on-one-row"): ("0fad8de", "message(bottom=...) on a one-row display replaced the top text with the bottom text"),
+    ("C17", "lcd-progress-nonpositive-max"): ("ca6cc00", "progress with max_value <= 0 drew a full bar (host: empty bar)"),
+    ("C17", "lcd-progress-nonpositive-width"): ("ca6cc00", "progress with width <= 0 used the whole row (host: one cell)"),
+    ("C16", "buzzer-subhertz-tone-zero"): ("12b43c5", "a positive frequency below 0.5 Hz was commanded as tone(pin, 0)"),
+    ("C16", "buzzer-beep-zero-times-keeps-sounding"): ("1a83c4a", "beep(times <= 0) on a sounding buzzer left it sounding with get_state() true"),
+    ("C16", "buzzer-negative-duration-wraps"): ("7fe27af", "a negative run-time duration was waited for as ULONG_MAX milliseconds"),
+    ("C11", "syntaxerror-for-valid-python"): ("0802d00", "SyntaxError of a line fragment (walrus, starred argument, yield, non-ASCII identifier ...) escaped parse() for text that is valid Python"),
+    ("C11", "pow-tower-timeout"): ("d3120d5", "a literal power such as 9**9**9 was folded on the host and did not return"),
+    ("C11", "short-tuple-assignment-indexerror"): ("1eced2a", "`a, b = 1,` escaped as IndexError (and `a, b = 1, 2, 3` silently dropped a value)"),
+    ("C11", "deep-expression-recursionerror"): ("76fecd5", "an expression nested >= 300 levels deep escaped parse() as RecursionError"),
+    ("C11", "nonfinite-number-overflowerror"): ("76fecd5", "a numeric argument folding to +-inf or a huge int escaped parse() as OverflowError"),
+    ("C10", "promotion-order-hash-seed"): ("37721ca", "the order of hoisted declarations (names first assigned in the branches of one if/try statement) followed set iteration order, so the C++ text changed with PYTHONHASHSEED"),
     ("C01", "floordiv-c-semantics"): ("4ff10d5", "`//` on ints of opposite sign used C truncation (7 // -2 gave -3)"),
     ("C01", "mod-c-semantics"): ("4ff10d5", "`%` used the C remainder (7 % -2 gave 1)"),
     ("C01", "float-floordiv-mod"): ("4ff10d5", "`//` with a float operand was C `/`; `%` with a float operand did not compile"),
